@@ -155,9 +155,64 @@ def _stream_case(syscall, stream, byte=65, in_byte=120):
 STREAM_CASES = [_stream_case(sc, s) for sc in (1, 2) for s in (0, 255, 256, 511, 2047, 2048, 2303, 4096, 65536 + 512, 0x80000000, 0xFFFFFF00, 0x80000300)]
 
 
+OPC = {"LDAM": 0, "LDBM": 1, "STAM": 2, "LDAC": 3, "LDBC": 4, "LDAP": 5, "LDAI": 6, "LDBI": 7, "STAI": 8, "BR": 9, "BRZ": 10, "BRN": 11, "OPR": 13}
+
+
+def _enc(op, v):
+    """prefix chain + instruction byte for a non-negative operand"""
+    n = 1
+    while (v >> (4 * n)) != 0:
+        n += 1
+    return bytes([0xE0 | ((v >> (4 * i)) & 0xF) for i in range(n - 1, 0, -1)] + [(OPC[op] << 4) | (v & 0xF)])
+
+
+def cli_stage(chk):
+    """the hexsim EXECUTABLE (hexsim.cpp's main) on a program that writes to a stream file, echoes one input byte to
+    standard output and exits with a value: bytes in simout2, standard output and process status are what the ISA run defines"""
+    exe = os.path.join(chk.out, "hexsim_cli")
+    hv.build_native(os.path.join(hv.REPO, "hexsim.cpp"), exe, extra=[os.path.join(hv.REPO, "hex.cpp")], opt="-O1", hooks=False)
+    code = b""
+    def write(ch, stream):
+        return b"".join([_enc("LDBM", 1), _enc("LDAC", ch), _enc("STAI", 2), _enc("LDAC", stream), _enc("STAI", 3), _enc("LDAC", 1), _enc("OPR", 3)])
+    for ch in b"Hex!\n":
+        code += write(ch, 512)
+    code += b"".join([_enc("LDBM", 1), _enc("LDAC", 0), _enc("STAI", 2), _enc("LDAC", 2), _enc("OPR", 3)])          # read stdin -> mem[sp+1]
+    code += b"".join([_enc("LDAM", 1), _enc("LDAI", 1), _enc("LDBM", 1), _enc("STAI", 2), _enc("LDAC", 0), _enc("STAI", 3), _enc("LDAC", 1), _enc("OPR", 3)])   # echo to stdout
+    code += b"".join([_enc("LDBM", 1), _enc("LDAC", 7), _enc("STAI", 2), _enc("LDAC", 0), _enc("OPR", 3)])          # exit(7)
+    img = bytes([0x97, 0, 0, 0]) + (1000).to_bytes(4, "little") + code
+    img += b"\0" * (-len(img) % 4)
+    d = os.path.join(chk.out, "scratch", "cli")
+    os.makedirs(d, exist_ok=True)
+    open(os.path.join(d, "p.bin"), "wb").write((len(img) // 4).to_bytes(4, "little") + img)
+    import subprocess
+    try:
+        r = subprocess.run([exe, "p.bin"], cwd=d, input=b"Q", capture_output=True, timeout=60)
+        rc, out = r.returncode, r.stdout
+    except subprocess.TimeoutExpired:
+        rc, out = -9, b""
+    try:
+        fout = open(os.path.join(d, "simout2"), "rb").read()
+    except OSError:
+        fout = None
+    why = ""
+    if rc != 7:
+        why = "process status %s instead of 7" % rc
+    elif out != b"Q":
+        why = "standard output %r instead of b'Q'" % out
+    elif fout != b"Hex!\n":
+        why = "file simout2 holds %r after the run instead of b'Hex!\\n'" % fout
+    chk.native.append({"stage": "hexsim executable (hexsim.cpp main) on a program writing to stream 512, echoing an input byte and exiting with 7: simout2, stdout, status", "ok": not why, "why": why})
+    if why:
+        p = chk.replay_path("native-cli")
+        json.dump({"property": PID, "obligation": "hexsim executable: stream files, standard output and status of a run", "what": why,
+                   "how": "run %s p.bin in %s with input 'Q' and look at simout2" % (exe, d)}, open(p, "w"), indent=1)
+        chk.add_violation("native-cli", p, "hexsim executable: " + why, True)
+
+
 def native_only(chk):
     exe = native(chk, None)
     native_stage(chk, exe, extracted=False)
+    cli_stage(chk)
 
 
 def replay_state(exe, st):
@@ -258,6 +313,7 @@ def main(chk, replay_file):
     hv.run_jobs(jobs, chk.out)
     exe = native(chk, unit)
     native_stage(chk, exe)
+    cli_stage(chk)
 
     for j in jobs:
         r = j.result
